@@ -2,9 +2,9 @@
 from __future__ import annotations
 from engine.registry import Registry
 from engine import sortmodel, polymodel
-from contracts import option, sorting, align, compare, order_lemmas, leading, dispatch, construct, dispatchfn, baseclass, derivative
+from contracts import option, sorting, align, compare, order_lemmas, leading, dispatch, construct, dispatchfn, baseclass, derivative, division
 
-_CONTRACT_MODULES = [option, sorting, align, compare, leading, dispatch, construct, dispatchfn, baseclass, derivative]
+_CONTRACT_MODULES = [option, sorting, align, compare, leading, dispatch, construct, dispatchfn, baseclass, derivative, division]
 
 ALL_CONTRACTS = {}
 for _m in _CONTRACT_MODULES:
@@ -132,9 +132,24 @@ PROPS = {
                     "(frame obligations at every write). Idempotence, argument order, name-union order: bounded run-time check.",
         not_decided=["align_indeterminants body (bounded only)", "idempotence clause (bounded only)"],
     ),
-    "C05": dict(level="other", contracts=[], explanation="Bounded run-time contracts only so far (conc/checks_c05.py): identity "
-                "dividend == q*divisor + r in exact arithmetic, termination with iteration counter and state-repeat detection, "
-                "operator routing; division loop invariant/variant not yet under the VC generator.", trusted_base=COMMON_TRUSTED),
+    "C05": dict(level="other", contracts=["numpoly.poly_divmod", "numpoly.poly_divide", "numpoly.poly_remainder"],
+                explanation="poly_divmod (real source) is proved at the level of abstract polynomial values in a commutative ring: "
+                "loop invariant dividend0 = quotient*divisor0 + dividend_ for every element (initiation from numpoly.zeros and the "
+                "aligned operands, preservation through add/subtract/where/multiply and the re-alignment, exit through the "
+                "`candidates is None` break), divisor value unchanged, common broadcast shape, operands kept aligned (precondition "
+                "of get_division_candidate), the forced-zero write targets a fresh array and an existing field; postcondition: the "
+                "identity relative to the broadcast arguments; 0-d operands: recursion on the raveled aligned operands, element 0 "
+                "of each result. poly_divide / poly_remainder are proved to return the quotient / remainder component of "
+                "poly_divmod on the same operands in order; the operator methods' routing is proved under C08. Termination, and "
+                "the clauses resting on it (constant divisors, exact multiples, degree of the remainder), rounding: bounded run-time "
+                "checks (conc/checks_c05.py: exact-arithmetic oracle, iteration counter, state-repeat detection).",
+                trusted_base=COMMON_TRUSTED + ["assumed value-level contracts: multiply, power/prod (monomial), zeros, where, "
+                                               "get_division_candidate (bounded under C01/C05/C09/C10)",
+                                               "contracts of add/subtract (C01), align_polynomials (C04), __getitem__ (C09)"],
+                assumptions=["PV is a commutative ring (ring axioms as hypotheses; MvPolynomial in Mathlib)",
+                             "B8: the forced-zero write does not change the polynomial denoted (exact arithmetic)", "A1"],
+                not_decided=["termination (bounded)", "constant divisor / exact multiple / degree clauses (bounded)",
+                             "floating-point rounding (bounded)", "numpy scalar on the left of / % divmod: open finding"]),
     "C06": dict(level="other", contracts=["numpoly.derivative"],
                 explanation="derivative (real source) is proved for any number of terms and indeterminates, symbolic options, the variable "
                 "designated by position, by name or by an indeterminate polynomial, one or two successive variables: at the point "
